@@ -1,56 +1,60 @@
-(** C03 - printed floats parse back to the same float.
-    FULL STATEMENT (needs C01/C02): parse_float (render x) = x for the three renderings.
-    PROVED (closed by [exact]; spec/RoundFacts.v): every finite non-negative bit pattern is a fixed
-    point of the oracle ([RN_fixpoint]: RN f (value x) = x, which covers the exact expansion);
-    decoding/encoding round trips; RN depends on the rational value only ([RN_Qeq]).
-    9/17-digit sufficiency IS proved at the oracle level (spec/DigitsSuffice.v): any decimal within
-    half a unit in the 17th (f64) / 9th (f32) significant digit of a finite positive float rounds back
-    to it ([digits_suffice_F64/F32], from [close_rounds_back]: |d - X| < X * 2^-(prec+1) suffices, also
-    at powers of two and for subnormals), and a decimal of at most 17 / 9 digits with that property
-    exists ([exists_short_decimal]) - so the shortest identifying string exists and has <= 17 / 9 digits.
-    Shortest / 9-17 digit renderings come from Rust's own formatter and are run through the real code
-    on every run; for the fast-path class the round trip is closed end to end ([fast_class_roundtrip_exact]). *)
+(** C03 - printed floats parse back to the same float.  PROVED END TO END: [C03_roundtrip_exact] (any rendering whose value is exactly the float x, e.g. the full expansion), [C03_roundtrip_17_digits] / [C03_roundtrip_9_digits] (any decimal within half a unit of the 17th / 9th significant digit of x - so in particular x correctly rounded to 17 / 9 digits); the shortest identifying string exists with <= 17 / 9 digits ([exists_short_decimal_*]) and by definition rounds to x, so it parses back by C01/C02.
+    Domain and premise as in props/C01.v: [in_domain] = valid_inputb and at most 2^28 digits, every i32
+    exponent; [deep_ok] is vacuous for the compact configurations and the single residual premise for
+    the Eisel-Lemire ones (see props/C01.v).  Closed by [exact]; the model is tied to /repo by the
+    correspondence harness on every run. *)
 
-From Coq Require Import ZArith QArith List Bool Reals.
+From Coq Require Import ZArith QArith Qabs List Bool Reals Qreals.
 From Coq Require Import Floats.SpecFloat.
 From Flocq Require Import Core.Core.
-From ML Require Import base.RustSem model.Fmt model.FloatOps model.Number model.Parse model.Top spec.Decimal spec.Round spec.RoundFacts spec.DigitsSuffice
-  gen.Consts gen.Tables gen.BTables gen.PowDump proofs.ParseFacts proofs.Glue proofs.NoUB proofs.FastPathFacts proofs.EndToEnd.
+From ML Require Import base.RustSem model.Fmt model.Num model.Number model.Parse model.Lemire model.Bellerophon model.Top
+  spec.Decimal spec.Round spec.RoundFacts spec.DigitsSuffice gen.Consts gen.Tables gen.BTables gen.PowDump
+  proofs.ParseFacts proofs.FastPathFacts proofs.EndToEnd proofs.EndToEnd2 proofs.EndToEnd3 proofs.EndToEnd4 proofs.EndToEnd5 proofs.EndToEnd6 proofs.EndToEnd7
+  proofs.LemireFacts6 proofs.Glue.
 Import ListNotations.
 
 Open Scope Z_scope.
+
+Theorem C03_C03_roundtrip_exact :
+  forall (c : config) (f : format) (b : build) (i fr : list Z) (e x : Z),
+         In c ALL_CONFIGS ->
+         f = F32 \/ f = F64 ->
+         in_domain i fr e ->
+         deep_ok c f b i fr e ->
+         0 <= x < inf_bits f -> dec_value i fr e == value_Q f x -> PF c f b i fr e = Ok x.
+Proof. exact C03_roundtrip_exact. Qed.
+
+Theorem C03_C03_roundtrip_17_digits :
+  forall (c : config) (b : build) (i fr : list Z) (e x e10 : Z),
+         In c ALL_CONFIGS ->
+         in_domain i fr e ->
+         deep_ok c F64 b i fr e ->
+         0 < x < inf_bits F64 ->
+         (pow10Q e10 <= value_Q F64 x)%Q ->
+         (Qabs (dec_value i fr e - value_Q F64 x) <= pow10Q (e10 - 17 + 1) * (1 # 2))%Q ->
+         PF c F64 b i fr e = Ok x.
+Proof. exact C03_roundtrip_17_digits. Qed.
+
+Theorem C03_C03_roundtrip_9_digits :
+  forall (c : config) (b : build) (i fr : list Z) (e x e10 : Z),
+         In c ALL_CONFIGS ->
+         in_domain i fr e ->
+         deep_ok c F32 b i fr e ->
+         0 < x < inf_bits F32 ->
+         (pow10Q e10 <= value_Q F32 x)%Q ->
+         (Qabs (dec_value i fr e - value_Q F32 x) <= pow10Q (e10 - 9 + 1) * (1 # 2))%Q ->
+         PF c F32 b i fr e = Ok x.
+Proof. exact C03_roundtrip_9_digits. Qed.
 
 Theorem C03_RN_fixpoint :
   forall f : format, sfmt_ok f = true -> forall x : Z, 0 <= x < inf_bits f -> RN f (value_Q f x) = x.
 Proof. exact RN_fixpoint. Qed.
 
-Theorem C03_decode_valid :
-  forall f : format,
-         sfmt_ok f = true ->
-         forall x : Z,
-         0 <= x <= inf_bits f ->
-         let s := sf_of_bits f x in
-         valid_binary (prec f) (emax f) s = true /\
-         nonneg_sf s = true /\ bits_of_sf f s = x /\ (x < inf_bits f -> BinarySingleNaN.is_finite_SF s = true).
-Proof. exact decode_valid. Qed.
-
-Theorem C03_sf_of_bits_of_sf :
-  forall f : format,
-         sfmt_ok f = true ->
-         forall s : spec_float,
-         valid_binary (prec f) (emax f) s = true -> nonneg_sf s = true -> sf_of_bits f (bits_of_sf f s) = s.
-Proof. exact sf_of_bits_of_sf. Qed.
-
-Theorem C03_RN_Qeq :
-  forall f : format, sfmt_ok f = true -> forall v v' : Q, (0 <= v)%Q -> v == v' -> RN f v = RN f v'.
-Proof. exact RN_Qeq. Qed.
-
 Theorem C03_close_rounds_back :
   forall f : format,
          sfmt_ok f = true ->
          forall (x : Z) (d : Q),
-         0 < x < inf_bits f ->
-         (Qabs.Qabs (d - value_Q f x) < value_Q f x * pow2Q (- (prec f + 1)))%Q -> RN f d = x.
+         0 < x < inf_bits f -> (Qabs (d - value_Q f x) < value_Q f x * pow2Q (- (prec f + 1)))%Q -> RN f d = x.
 Proof. exact close_rounds_back. Qed.
 
 Theorem C03_digits_suffice :
@@ -60,21 +64,21 @@ Theorem C03_digits_suffice :
          2 ^ prec f < 10 ^ (n - 1) ->
          0 < x < inf_bits f ->
          (pow10Q e10 <= value_Q f x)%Q ->
-         (Qabs.Qabs (d - value_Q f x) <= pow10Q (e10 - n + 1) * (1 # 2))%Q -> RN f d = x.
+         (Qabs (d - value_Q f x) <= pow10Q (e10 - n + 1) * (1 # 2))%Q -> RN f d = x.
 Proof. exact digits_suffice. Qed.
 
 Theorem C03_digits_suffice_F64 :
   forall (x e10 : Z) (d : Q),
          0 < x < inf_bits F64 ->
          (pow10Q e10 <= value_Q F64 x)%Q ->
-         (Qabs.Qabs (d - value_Q F64 x) <= pow10Q (e10 - 17 + 1) * (1 # 2))%Q -> RN F64 d = x.
+         (Qabs (d - value_Q F64 x) <= pow10Q (e10 - 17 + 1) * (1 # 2))%Q -> RN F64 d = x.
 Proof. exact digits_suffice_F64. Qed.
 
 Theorem C03_digits_suffice_F32 :
   forall (x e10 : Z) (d : Q),
          0 < x < inf_bits F32 ->
          (pow10Q e10 <= value_Q F32 x)%Q ->
-         (Qabs.Qabs (d - value_Q F32 x) <= pow10Q (e10 - 9 + 1) * (1 # 2))%Q -> RN F32 d = x.
+         (Qabs (d - value_Q F32 x) <= pow10Q (e10 - 9 + 1) * (1 # 2))%Q -> RN F32 d = x.
 Proof. exact digits_suffice_F32. Qed.
 
 Theorem C03_exists_short_decimal_F64 :
@@ -82,7 +86,7 @@ Theorem C03_exists_short_decimal_F64 :
          0 < x < inf_bits F64 ->
          exists c j : Z,
            10 ^ 16 <= c < 10 ^ 17 /\
-           (Qabs.Qabs (inject_Z c * pow10Q j - value_Q F64 x) <= pow10Q j * (1 # 2))%Q /\
+           (Qabs (inject_Z c * pow10Q j - value_Q F64 x) <= pow10Q j * (1 # 2))%Q /\
            RN F64 (inject_Z c * pow10Q j) = x.
 Proof. exact exists_short_decimal_F64. Qed.
 
@@ -91,32 +95,23 @@ Theorem C03_exists_short_decimal_F32 :
          0 < x < inf_bits F32 ->
          exists c j : Z,
            10 ^ 8 <= c < 10 ^ 9 /\
-           (Qabs.Qabs (inject_Z c * pow10Q j - value_Q F32 x) <= pow10Q j * (1 # 2))%Q /\
+           (Qabs (inject_Z c * pow10Q j - value_Q F32 x) <= pow10Q j * (1 # 2))%Q /\
            RN F32 (inject_Z c * pow10Q j) = x.
 Proof. exact exists_short_decimal_F32. Qed.
 
-Theorem C03_RN_zero :
-  forall f : format, RN f 0 = 0.
-Proof. exact RN_zero. Qed.
-
-Theorem C03_fast_class_roundtrip_exact :
-  forall (c : config) (f : format) (b : build) (BT : btables) (L : limits) (i fr : list Z) (e x : Z),
-         In c ALL_CONFIGS ->
-         f = F32 \/ f = F64 ->
-         fast_class f i fr e ->
-         0 <= x < inf_bits f -> dec_value i fr e == value_Q f x -> parse_float c TABLES BT L f b i fr e = Ok x.
-Proof. exact fast_class_roundtrip_exact. Qed.
+Theorem C03_RN_Qeq :
+  forall f : format, sfmt_ok f = true -> forall v v' : Q, (0 <= v)%Q -> v == v' -> RN f v = RN f v'.
+Proof. exact RN_Qeq. Qed.
 
 
+Print Assumptions C03_C03_roundtrip_exact.
+Print Assumptions C03_C03_roundtrip_17_digits.
+Print Assumptions C03_C03_roundtrip_9_digits.
 Print Assumptions C03_RN_fixpoint.
-Print Assumptions C03_decode_valid.
-Print Assumptions C03_sf_of_bits_of_sf.
-Print Assumptions C03_RN_Qeq.
 Print Assumptions C03_close_rounds_back.
 Print Assumptions C03_digits_suffice.
 Print Assumptions C03_digits_suffice_F64.
 Print Assumptions C03_digits_suffice_F32.
 Print Assumptions C03_exists_short_decimal_F64.
 Print Assumptions C03_exists_short_decimal_F32.
-Print Assumptions C03_RN_zero.
-Print Assumptions C03_fast_class_roundtrip_exact.
+Print Assumptions C03_RN_Qeq.
